@@ -4,6 +4,7 @@ package main
 import (
 	"fmt"
 	"math"
+	"reflect"
 	"sort"
 	"unsafe"
 
@@ -54,7 +55,7 @@ func checkValue(c *mc.Ctx, g orb.Geometry) {
 	before := refgeom.Bits(g)
 	for ci, cl := range []orb.Geometry{orb.Clone(g), typedClone(g)} {
 		if !refgeom.Equal(cl, g) {
-			if cl == nil && g != nil && refgeom.Bits(g) != refgeom.Struct(g) && ci == 0 {
+			if rv := reflect.ValueOf(g); cl == nil && g != nil && rv.Kind() == reflect.Slice && rv.IsNil() && ci == 0 {
 				// a typed nil slice at the top level: orb.Clone returns the untyped nil interface
 				c.Failf("clone-typed-nil:returns-untyped-nil", "orb.Clone(%s(nil)) returns the nil interface, which orb.Equal does not consider equal to the original", kindOf(g))
 				continue
@@ -423,9 +424,13 @@ func main() {
 			func(ps []orb.Point) orb.Geometry { return orb.LineString(ps) },
 			func(ps []orb.Point) orb.Geometry { return orb.Ring(ps) },
 			func(ps []orb.Point) orb.Geometry { return orb.Polygon{{{0, 0}, {9, 0}, {9, 9}, {0, 0}}, orb.Ring(ps)} },
-			func(ps []orb.Point) orb.Geometry { return orb.MultiPolygon{{{{0, 0}, {9, 0}, {9, 9}, {0, 0}}}, {orb.Ring(ps)}} },
+			func(ps []orb.Point) orb.Geometry {
+				return orb.MultiPolygon{{{{0, 0}, {9, 0}, {9, 9}, {0, 0}}}, {orb.Ring(ps)}}
+			},
 			func(ps []orb.Point) orb.Geometry { return orb.MultiLineString{{{5, 5}}, orb.LineString(ps)} },
-			func(ps []orb.Point) orb.Geometry { return orb.Collection{orb.Point{1, 1}, orb.Collection{orb.Ring(ps)}} },
+			func(ps []orb.Point) orb.Geometry {
+				return orb.Collection{orb.Point{1, 1}, orb.Collection{orb.Ring(ps)}}
+			},
 		}
 		for fi, f := range forms {
 			a, b, a2 := f(base), f(edited), f(append([]orb.Point(nil), base...))
@@ -471,7 +476,9 @@ func main() {
 	emptyHolders := []func(g orb.Geometry) orb.Geometry{
 		func(g orb.Geometry) orb.Geometry { return g },
 		func(g orb.Geometry) orb.Geometry { return orb.Collection{g} },
-		func(g orb.Geometry) orb.Geometry { return orb.Collection{orb.Point{1, 2}, orb.Collection{g}, orb.LineString{{3, 4}}} },
+		func(g orb.Geometry) orb.Geometry {
+			return orb.Collection{orb.Point{1, 2}, orb.Collection{g}, orb.LineString{{3, 4}}}
+		},
 		func(g orb.Geometry) orb.Geometry {
 			switch v := g.(type) {
 			case orb.Ring:
